@@ -17,6 +17,7 @@ def entry (ld : String → Val) (pre : Path) (cut : Nat) (fs : Fields) (sel : Op
   | .field n => chkVal ld (pre ++ [.key k]) cut false n v
   | .sect cfs => if sel = some k then chkVal ld (pre ++ [.key k]) cut false (.group false cfs) v else .ok ()
   | .none =>
+    if metaLeaf k v then .ok () else
     match appendSlot fs k with
     | some (b, n) => if appendOk ld n v then .ok () else .error (.type (pre ++ [.key b]) cut)
     | none => if leafless v then .ok () else .error (.unknown (pre ++ [.key k] ++ (deepPath v).map .key) cut)
@@ -26,6 +27,7 @@ def clsEntry (ld : String → Val) (pre : Path) (cfs : Fields) (k : String) (v :
   if k = "class_path" then .ok ()
   else if k = "init_args" then chkVal ld (pre ++ [.key "init_args"]) pre.length true (.group true cfs) v
   else if k = "dict_kwargs" then .ok ()
+  else if k = "__path__" then .ok ()
   else .error (.unknown (pre ++ [.key k]) pre.length)
 
 /-- sequencing of checks -/
@@ -65,18 +67,21 @@ theorem walk_cons (ld pre cut fs sel k v r) :
     · simp only [h]; rfl
   | none =>
     simp only []
-    cases ha : appendSlot fs k with
-    | some bn =>
-      obtain ⟨b, n⟩ := bn
-      simp only []
-      by_cases h : appendOk ld n v = true
-      · simp only [h, if_true]; rfl
-      · simp only [h]; rfl
-    | none =>
-      simp only []
-      by_cases h : leafless v = true
-      · simp only [h, if_true]; rfl
-      · simp only [h]; rfl
+    by_cases hm : metaLeaf k v = true
+    · simp only [hm, if_true]; rfl
+    · simp only [hm]
+      cases ha : appendSlot fs k with
+      | some bn =>
+        obtain ⟨b, n⟩ := bn
+        simp only []
+        by_cases h : appendOk ld n v = true
+        · simp only [h, if_true]; rfl
+        · simp only [h]; rfl
+      | none =>
+        simp only []
+        by_cases h : leafless v = true
+        · simp only [h, if_true]; rfl
+        · simp only [h]; rfl
 
 theorem chkCls_nil (ld pre cfs) : chkCls ld pre cfs [] = .ok () := by
   rw [chkCls]
@@ -96,7 +101,10 @@ theorem chkCls_cons (ld pre cfs k v r) :
     · simp only [h2, if_false]
       by_cases h3 : k = "dict_kwargs"
       · simp only [h3, if_true]; rfl
-      · simp only [h3, if_false]; rfl
+      · simp only [h3, if_false]
+        by_cases h4 : k = "__path__"
+        · simp only [h4, if_true]; rfl
+        · simp only [h4, if_false]; rfl
 
 theorem chkItems_nil (ld pre i it) : chkItems ld pre i it [] = .ok () := by
   rw [chkItems]
@@ -383,7 +391,7 @@ theorem okAt_child {ld} {p q : Pos} {seg : Seg} (hp : OkAt ld p) (hc : child p s
               subst hc
               exact ⟨_, _, he⟩
             · simp only [h2, if_false] at hc
-              by_cases h3 : k = "dict_kwargs" <;> simp [h3] at hc
+              by_cases h3 : k = "dict_kwargs" <;> by_cases h4 : k = "__path__" <;> simp [h3, h4] at hc
     | null => simp [child] at hc
     | bool b => simp [child] at hc
     | int i => simp [child] at hc
@@ -467,7 +475,7 @@ theorem child_pos_getPath {p q : Pos} {seg : Seg} (hc : child p seg = .pos q) (r
               by_cases h2 : k = "init_args"
               · simp only [h2, if_true, Next.pos.injEq] at hc; subst hc; rfl
               · simp only [h2, if_false] at hc
-                by_cases h3 : k = "dict_kwargs" <;> simp [h3] at hc
+                by_cases h3 : k = "dict_kwargs" <;> by_cases h4 : k = "__path__" <;> simp [h3, h4] at hc
     | null => simp [child] at hc
     | bool b => simp [child] at hc
     | int i => simp [child] at hc
@@ -530,9 +538,12 @@ theorem okAt_child_undefined {ld} {p : Pos} {seg : Seg} {r : Path} {w : Val}
             | some bn => simp [hap] at hc
             | none =>
               simp only [hap] at he
-              by_cases hl : leafless v = true
-              · exact leafless_getPath r hl hg
-              · simp [hl] at he
+              by_cases hm : metaLeaf k v = true
+              · simp [hm] at hc
+              · simp only [hm] at he
+                by_cases hl : leafless v = true
+                · exact leafless_getPath r hl hg
+                · simp [hl] at he
     | null => simp [child] at hc
     | bool b => simp [child] at hc
     | int i => simp [child] at hc
@@ -570,7 +581,9 @@ theorem okAt_child_undefined {ld} {p : Pos} {seg : Seg} {r : Path} {w : Val}
             · simp only [h2, if_false] at hc he
               by_cases h3 : k = "dict_kwargs"
               · simp [h3] at hc
-              · simp [h3] at he
+              · by_cases h4 : k = "__path__"
+                · simp [h3, h4] at hc
+                · simp [h3, h4] at he
     | null => simp [child] at hc
     | bool b => simp [child] at hc
     | int i => simp [child] at hc
@@ -1577,7 +1590,7 @@ theorem modify_prop {ld} {f : Val → Option Val} :
                       | list xs => simp [hcv] at hcls
                       | dict d => simp [hcv] at hcls
                   · simp only [h2, if_false] at hc
-                    by_cases h3 : k = "dict_kwargs" <;> simp [h3] at hc
+                    by_cases h3 : k = "dict_kwargs" <;> by_cases h4 : k = "__path__" <;> simp [h3, h4] at hc
         | null => simp [child] at hc
         | bool b => simp [child] at hc
         | int i => simp [child] at hc
@@ -1648,18 +1661,19 @@ theorem insertF_good {z : String} {w : Val} (hl : leafless w = false) :
 
 theorem insert_end_group {ld pre cut item whole fs kvs z w}
     (hok : chkVal ld pre cut item (.group whole fs) (.dict kvs) = .ok ()) (hs : slotOf fs z = .none)
-    (hap : appendSlot fs z = none) (hl : leafless w = false) :
+    (hap : appendSlot fs z = none) (hmz : isMeta z = false) (hl : leafless w = false) :
     chkVal ld pre cut item (.group whole fs) (.dict (kvs ++ [(z, w)])) =
       .error (.unknown (pre ++ [.key z] ++ (deepPath w).map .key) (if item then pre.length else cut)) := by
   apply chkVal_group_dict_err
   rw [selected_append_foreign hs, walk_append, walk_of_group_ok' hok, walk_cons, walk_nil]
   unfold entry
-  simp [hs, hap, hl]
+  have hm : metaLeaf z w = false := by cases w <;> simp [metaLeaf, hmz]
+  simp [hs, hap, hl, hm]
 
 theorem insert_end_class {ld pre cut item req imp cls kvs z w}
     (hok : chkVal ld pre cut item (.classArg req imp cls) (.dict kvs) = .ok ())
     (hsome : (classOf cls kvs).isSome = true)
-    (h1 : z ≠ "class_path") (h2 : z ≠ "init_args") (h3 : z ≠ "dict_kwargs") :
+    (h1 : z ≠ "class_path") (h2 : z ≠ "init_args") (h3 : z ≠ "dict_kwargs") (h4 : z ≠ "__path__") :
     chkVal ld pre cut item (.classArg req imp cls) (.dict (kvs ++ [(z, w)])) =
       .error (.unknown (pre ++ [.key z]) pre.length) := by
   obtain ⟨cfs0, hcls0⟩ : ∃ c, classOf cls kvs = some c := by
@@ -1684,7 +1698,7 @@ theorem insert_end_class {ld pre cut item req imp cls kvs z w}
       simp only [hcls]
       rw [chkCls_append, hck, chkCls_cons, chkCls_nil]
       unfold clsEntry
-      simp [h1, h2, h3]
+      simp [h1, h2, h3, h4]
     | null => simp [hcv] at hcls
     | bool b => simp [hcv] at hcls
     | int i => simp [hcv] at hcls
@@ -1722,7 +1736,12 @@ theorem insert_reported {ld fs kvs path q z w v'}
             cases hh : appendSlot gfs z with
             | none => rfl
             | some bn => simp [hh] at hfor
-          have := insert_end_group (w := w) hqok hs hap hl
+          have hmz : isMeta z = false := by
+            simp only [hs] at hfor
+            cases hh : isMeta z with
+            | false => rfl
+            | true => simp [hh] at hfor
+          have := insert_end_group (w := w) hqok hs hap hmz hl
           exact ⟨_, _, hprop _ (by rw [this])⟩
       | field n => simp [hs] at hfor
       | sect cfs => simp [hs] at hfor
@@ -1736,13 +1755,13 @@ theorem insert_reported {ld fs kvs path q z w v'}
     cases qv with
     | dict qkvs =>
       simp only [Bool.and_eq_true, Bool.not_eq_true', decide_eq_false_iff_not] at hfor
-      obtain ⟨⟨⟨hcsome, h1⟩, h2⟩, h3⟩ := hfor
+      obtain ⟨⟨⟨⟨hcsome, h1⟩, h2⟩, h3⟩, h4⟩ := hfor
       simp only [insertF] at hfq
       by_cases hk : hasKey z qkvs = true
       · simp [hk] at hfq
       · simp only [hk, Bool.false_eq_true, if_false, Option.some.injEq] at hfq
         subst hfq
-        have := insert_end_class (w := w) hqok hcsome h1 h2 h3
+        have := insert_end_class (w := w) hqok hcsome h1 h2 h3 h4
         refine ⟨[], path.length, ?_⟩
         simp only [List.append_nil]
         exact hprop _ this
